@@ -1,1 +1,157 @@
-//! Per-key linearizability checker (placeholder).
+//! Per-key linearizability checker (Wing-Gong search with memoisation) against a
+//! sequential register with expiry-agnostic "may observe nothing" reads.
+//!
+//! Events are stamped with the scheduler's global step counter (never simulated time,
+//! under which operations would tie). Histories are tiny (<= 24 ops per key).
+
+use std::collections::HashSet;
+
+#[derive(Clone, Debug, PartialEq, Eq)]
+pub enum LinOp {
+    /// insert(k, v); `clock` = [lo, hi] readings the insert may have used.
+    Write { vid: u32, clock: (u64, u64) },
+    /// invalidate(k)
+    Remove,
+    /// invalidate_all(): removes the value iff its insert read a clock < this one's.
+    RemoveAll { clock: (u64, u64) },
+    /// get / contains_key / iterator yield: observed value id (None = nothing).
+    /// `any_value`: contains_key saw "something" without knowing which value.
+    Read { got: Option<u32>, any_value: bool },
+}
+
+#[derive(Clone, Debug)]
+pub struct LinEvent {
+    pub op: LinOp,
+    pub invoke: u64,
+    pub ret: u64,
+    pub tid: usize,
+    pub idx: usize,
+}
+
+#[derive(Clone, Copy, Debug, PartialEq, Eq, Hash)]
+struct Reg {
+    /// current value id (0 = nothing) and the clock interval of its insert
+    vid: u32,
+    lo: u64,
+    hi: u64,
+}
+
+/// Returns Ok(()) if the history of one key is linearizable; Err(description) otherwise.
+/// `strict`: reads must observe the register exactly (no spurious "nothing").
+pub fn check_key(events: &[LinEvent], strict: bool) -> Result<(), String> {
+    let n = events.len();
+    if n == 0 {
+        return Ok(());
+    }
+    if n > 30 {
+        return Ok(()); // bounded; generators never exceed this
+    }
+    let mut memo: HashSet<(u32, Reg)> = HashSet::new();
+    let init = Reg { vid: 0, lo: 0, hi: 0 };
+    if search(events, 0u32, init, strict, &mut memo) {
+        Ok(())
+    } else {
+        let mut desc = Vec::new();
+        let mut evs: Vec<&LinEvent> = events.iter().collect();
+        evs.sort_by_key(|e| (e.invoke, e.ret));
+        for e in evs {
+            desc.push(format!("T{}#{}[{}..{}]{:?}", e.tid, e.idx, e.invoke, e.ret, e.op));
+        }
+        Err(desc.join(" "))
+    }
+}
+
+fn search(ev: &[LinEvent], done: u32, reg: Reg, strict: bool, memo: &mut HashSet<(u32, Reg)>) -> bool {
+    let n = ev.len();
+    if done.count_ones() as usize == n {
+        return true;
+    }
+    if !memo.insert((done, reg)) {
+        return false;
+    }
+    // minimal return among pending ops: an op can be linearized next only if it was
+    // invoked before every pending op returned
+    let mut min_ret = u64::MAX;
+    for (i, e) in ev.iter().enumerate() {
+        if done & (1 << i) == 0 && e.ret < min_ret {
+            min_ret = e.ret;
+        }
+    }
+    for (i, e) in ev.iter().enumerate() {
+        if done & (1 << i) != 0 || e.invoke > min_ret {
+            continue;
+        }
+        let nd = done | (1 << i);
+        match &e.op {
+            LinOp::Write { vid, clock } => {
+                if search(ev, nd, Reg { vid: *vid, lo: clock.0, hi: clock.1 }, strict, memo) {
+                    return true;
+                }
+            }
+            LinOp::Remove => {
+                if search(ev, nd, Reg { vid: 0, lo: 0, hi: 0 }, strict, memo) {
+                    return true;
+                }
+            }
+            LinOp::RemoveAll { clock } => {
+                if reg.vid == 0 {
+                    if search(ev, nd, reg, strict, memo) {
+                        return true;
+                    }
+                } else {
+                    // removed iff t_insert < t_call; both are intervals
+                    let may_remove = reg.lo < clock.1;
+                    let may_keep = reg.hi >= clock.0;
+                    if may_remove && search(ev, nd, Reg { vid: 0, lo: 0, hi: 0 }, strict, memo) {
+                        return true;
+                    }
+                    if may_keep && search(ev, nd, reg, strict, memo) {
+                        return true;
+                    }
+                }
+            }
+            LinOp::Read { got, any_value } => {
+                let ok = match got {
+                    Some(v) => reg.vid == *v,
+                    None => {
+                        if *any_value {
+                            reg.vid != 0
+                        } else {
+                            !strict || reg.vid == 0
+                        }
+                    }
+                };
+                if ok && search(ev, nd, reg, strict, memo) {
+                    return true;
+                }
+            }
+        }
+    }
+    false
+}
+
+#[cfg(test)]
+mod tests {
+    use super::*;
+    fn ev(op: LinOp, invoke: u64, ret: u64) -> LinEvent {
+        LinEvent { op, invoke, ret, tid: 0, idx: 0 }
+    }
+    #[test]
+    fn stale_read_is_rejected() {
+        let h = vec![
+            ev(LinOp::Write { vid: 1, clock: (0, 0) }, 0, 1),
+            ev(LinOp::Write { vid: 2, clock: (0, 0) }, 2, 3),
+            ev(LinOp::Read { got: Some(1), any_value: false }, 4, 5),
+        ];
+        assert!(check_key(&h, false).is_err());
+    }
+    #[test]
+    fn concurrent_read_may_see_either() {
+        let h = vec![
+            ev(LinOp::Write { vid: 1, clock: (0, 0) }, 0, 1),
+            ev(LinOp::Write { vid: 2, clock: (0, 0) }, 2, 6),
+            ev(LinOp::Read { got: Some(1), any_value: false }, 3, 4),
+        ];
+        assert!(check_key(&h, false).is_ok());
+    }
+}
